@@ -92,9 +92,9 @@ impl<T> Drop for Receiver<T> {
             return;
         }
 
-        // Drain the channel.
-        while !self.object.is_empty() {
-            self.recv().unwrap();
-        }
+        // Drain the channel. Whether a message is found depends on the order
+        // with the sends of the other threads, so every look at the channel is
+        // a scheduling point, as in `try_recv`.
+        while self.try_recv().is_ok() {}
     }
 }
